@@ -155,7 +155,7 @@ def crate_inliner(bods):
     appearing in the candidate's signature. Ambiguous or foreign callees stay uninterpreted."""
     by_last = {}
     for name, b in bods.items():
-        if "#" in name.rsplit("::", 1)[-1] or "{closure" in name.rsplit("::", 1)[-1]:
+        if re.search(r"#\d+$", name) or "{closure" in name.rsplit("::", 1)[-1]:
             continue
         by_last.setdefault(name.rsplit("::", 1)[-1], []).append(b)
 
@@ -179,3 +179,68 @@ def crate_inliner(bods):
             return cands[0]
         return None
     return resolve
+
+
+def _opt(ex, some_cond, val, ty):
+    """Option<int> as a node: discr = ite(cond,1,0), Some.0 = val"""
+    n = Node(ex.ctx.fresh_name("opt"), f"Option<{ty}>")
+    d = Node(n.name + ".discr", "isize")
+    d.val = z3.If(some_cond, z3.BitVecVal(1, 64), z3.BitVecVal(0, 64))
+    n.kids["discr"] = d
+    k = Node(n.name + ".Some:0", ty)
+    k.val = val
+    n.kids[("Some", 0)] = k
+    return n
+
+
+def m_int_ops(ex, st, callee, args, dty, site):
+    from .sym import INT_TYPES
+    m = re.match(r"^(?:core::num::<impl ([iu](?:8|16|32|64|128|size))>::(\w+)|<([iu](?:8|16|32|64|128|size)) as Ord>::(min|max)|std::cmp::(min|max)::<([iu](?:8|16|32|64|128|size))>|core::cmp::(min|max)::<([iu](?:8|16|32|64|128|size))>)$", callee)
+    if not m:
+        return NotImplemented
+    ty = m.group(1) or m.group(3) or m.group(6) or m.group(8)
+    op = m.group(2) or m.group(4) or m.group(5) or m.group(7)
+    w, sg = INT_TYPES[ty]
+    a = args[0]
+    b = args[1] if len(args) > 1 else None
+    if not isinstance(a, z3.BitVecRef) or (b is not None and not isinstance(b, z3.BitVecRef)):
+        return NotImplemented
+    lt = (lambda x, y: x < y) if sg else z3.ULT
+    if op == "min":
+        return z3.If(lt(b, a), b, a)
+    if op == "max":
+        return z3.If(lt(a, b), b, a)
+    if op == "wrapping_add":
+        return a + b
+    if op == "wrapping_sub":
+        return a - b
+    if op == "checked_sub" and not sg:
+        return _opt(ex, z3.UGE(a, b), a - b, ty)
+    if op == "checked_add" and not sg:
+        return _opt(ex, z3.BVAddNoOverflow(a, b, False), a + b, ty)
+    if op == "saturating_sub" and not sg:
+        return z3.If(z3.UGE(a, b), a - b, z3.BitVecVal(0, w))
+    if op == "saturating_add" and not sg:
+        return z3.If(z3.BVAddNoOverflow(a, b, False), a + b, z3.BitVecVal((1 << w) - 1, w))
+    if op == "is_ascii_whitespace" and ty == "u8":
+        return None
+    return NotImplemented
+
+
+def m_is_ascii_ws(ex, st, callee, args, dty, site):
+    v = args[0]
+    if isinstance(v, Ptr):
+        v = ex.read_node(v.node)
+    if isinstance(v, Node):
+        v = ex.read_node(ex.pointee(v)) if v.val is None and not v.kids else ex.read_node(v)
+    if not isinstance(v, z3.BitVecRef):
+        return NotImplemented
+    return z3.Or(v == 0x20, v == 0x09, v == 0x0A, v == 0x0C, v == 0x0D)
+
+
+INT_MODELS += [
+    (r"^core::num::<impl u8>::is_ascii_whitespace$", m_is_ascii_ws),
+    (r"^(core::num::<impl [iu](8|16|32|64|128|size)>::(min|max|wrapping_add|wrapping_sub|checked_sub|checked_add|saturating_sub|saturating_add)|<[iu](8|16|32|64|128|size) as Ord>::(min|max)|(std|core)::cmp::(min|max)::<[iu](8|16|32|64|128|size)>)$", m_int_ops),
+]
+MODEL_DOC[INT_MODELS[-1][0]] = "integer min/max/wrapping/checked/saturating add & sub: their std definitions as bit-vector terms"
+MODEL_DOC[INT_MODELS[-2][0]] = "u8::is_ascii_whitespace: byte in {0x20,0x09,0x0A,0x0C,0x0D}"
